@@ -529,7 +529,9 @@ func (c *DataCondition) invert() ConditionsSet {
 }
 
 func (c *ImpossibleCondition) invert() ConditionsSet {
-	return ConditionsSet{}
+	// the opposite of nothing is everything: one alternative without conditions
+	// (an empty ConditionsSet is no alternative at all when it becomes part of an OR)
+	return ConditionsSet{Conditions{}}
 }
 
 func (t *queryTerm) QueryConditions(pc *parserContext) (ConditionsSet, error) {
